@@ -12,7 +12,7 @@
 //   * identifiers: integer i of kind k -> UUID 00000000-0000-0000-kkkk-iiiiiiiiiiii
 //       (1 node, 2 agency, 3 service, 4 line, 5 path, 6 scenario, 7 trip);
 //   * names exactly as core_harness.cpp: node code "c<i>" name "n<i>", agency acronym "A<i>" name
-//       "Agency<i>", line shortname "L<i>" longname "Line<i>", service "S<i>", scenario name "sc";
+//       "Agency<i>", line shortname verifLineShortname(i) (NOT unique: "L0","L1","L0","",...) longname "Line<i>", service "S<i>", scenario name "sc";
 //   * stop i lies at latitude 45.000000 + i * 1e-6, longitude -73.000000 (1 micro-degree = 0.11 m apart, so
 //       that the bird-distance pre-filter of the OSRM client passes every stop and the stub decides);
 //   * nodes/node_<uuid>.capnpbin of stop a lists the footpaths a -> b (uuid, time, distance) in dataset
@@ -51,6 +51,10 @@
 #include "capnp/scenarioCollection.capnp.h"
 #include "capnp/serviceCollection.capnp.h"
 #include "capnp/agencyCollection.capnp.h"
+
+// line short names are deliberately NOT unique (lines 0 and 2 share "L0", every fourth line has an empty one): anything that
+// identifies a line by its short name instead of its uuid collapses two lines (check/canon.py line_short mirrors this)
+static inline std::string verifLineShortname(size_t i) { return i % 4 == 3 ? std::string("") : "L" + std::to_string(i % 2); }
 
 static const char *BREAKS[][2] = {
   {"trip_path",        "a trip refers to a path uuid that paths.capnpbin does not define"},
@@ -193,7 +197,7 @@ int main(int argc, char **argv) {
     for (size_t i = 0; i < lines.size(); i++) {
       l[i].setUuid(mk(4, i)); l[i].setMode(B("line_mode", i, lines.size()) ? "hovercraft" : MODES[lines[i].mode]);
       l[i].setAgencyUuid(B("line_agency", i, lines.size()) ? mk(2, 999) : mk(2, lines[i].agency));
-      l[i].setShortname("L" + std::to_string(i)); l[i].setLongname("Line" + std::to_string(i)); l[i].setIsEnabled(1); l[i].setAllowSameLineTransfers(0); }
+      l[i].setShortname(verifLineShortname(i)); l[i].setLongname("Line" + std::to_string(i)); l[i].setIsEnabled(1); l[i].setAllowSameLineTransfers(0); }
     save(m, dir + "/lines.capnpbin"); }
 
   { ::capnp::MallocMessageBuilder m; auto c = m.initRoot<pathCollection::PathCollection>(); auto l = c.initPaths(paths.size());
@@ -234,7 +238,7 @@ int main(int argc, char **argv) {
   for (size_t li = 0; li < lines.size(); li++) {
     if (B("line_file_missing", li, lines.size())) { for (auto &t : trips) if (paths[t.path].line == (int)li) tripCounter++; continue; }
     ::capnp::MallocMessageBuilder m; auto ln = m.initRoot<line::Line>(); ln.setUuid(mk(4, li));
-    ln.setMode(MODES[lines[li].mode]); ln.setAgencyUuid(mk(2, lines[li].agency)); ln.setShortname("L" + std::to_string(li)); ln.setLongname("Line" + std::to_string(li));
+    ln.setMode(MODES[lines[li].mode]); ln.setAgencyUuid(mk(2, lines[li].agency)); ln.setShortname(verifLineShortname(li)); ln.setLongname("Line" + std::to_string(li));
     std::vector<int> svs; for (auto &t : trips) if (paths[t.path].line == (int)li && std::find(svs.begin(), svs.end(), t.service) == svs.end()) svs.push_back(t.service);
     auto sch = ln.initSchedules(svs.size());
     for (size_t si = 0; si < svs.size(); si++, schedCounter++) {
